@@ -91,7 +91,7 @@ class TypeGen:
             return ["prod", [sub() for _ in range(k)], ["cls", C_TUPLE]]
         if kind == "fdep":
             fn = rng.randrange(3)
-            np_ = rng.choice([0, 1, 2])
+            np_ = rng.choice([0, 1, 2, 2])
             ps = [None if rng.random() < 0.3 else rng.randrange(3) for _ in range(np_)]
             b = self.cls() if rng.random() < 0.8 else sub()
             return ["fdep", fn, ps, b]
